@@ -65,7 +65,8 @@ Meth(n, ps, rs, va) == [n |-> n, ps |-> ps, rs |-> rs, va |-> va]
 Iface(ms, es)   == [k |-> "iface", ms |-> ms, es |-> es]  \* anonymous interface literal
 Union(ts)       == [k |-> "union", ts |-> ts]    \* constraint ~t1 | ~t2 (only as a type-parameter constraint)
 
-BasicNames == {"int", "string", "bool", "float64", "byte", "rune", "uintptr", "complex128", "error", "any", "comparable"}
+BasicNames == {"int", "string", "bool", "float64", "byte", "rune", "uintptr", "complex128", "error", "any", "comparable",
+               "uint8", "int64"}
 ComparableLeaves == {B("string"), B("int"), N("SRC", "LE"), N("FX", "E")}
 
 \* the type of the i-th parameter as go/types sees it (variadic ...T is []T)
@@ -74,11 +75,14 @@ ParamType(m, i) == IF m.va /\ i = Len(m.ps) THEN Slice(m.ps[i].t) ELSE m.ps[i].t
 (* ------------------------------------------------------------------------ *)
 (* Library of named types the helper packages declare (fixed Go source in    *)
 (* lib/codegen_worlds.py).  Every foreign package declares the same names.   *)
-\*   T struct, I interface{Do(T) error}, G[T any] struct, E int, A = T, C constraint ~int|~string,
+\*   T struct, I interface{Do(T) error}, G[T any] struct, E int, A = T, Client = internal/impl.Client, Token = token,
+\*   C constraint ~int|~string,
 \*   GI[T any] interface{Get() T; Put(v T)}, RW interface{Read;Write}
 \* local (SRC): LT struct, lt struct, LI interface{Foo()}, LG[T any], LG2[K comparable,V any],
 \*   LA = FX.T, LE int, LGI[T any] interface{Get() T; Put(v T)}, LC constraint, and adversarially named ones
-AliasNames == {"A", "LA"}
+\* Client = impl.Client (impl under the package's internal/ directory: not importable from the destination);
+\* Token = token (exported alias of an unexported type).  Nameable THROUGH the alias, hence inside the guarantee.
+AliasNames == {"A", "LA", "Client", "Token"}
 IsAliasTerm(t) == t.k = "named" /\ t.n \in AliasNames
 
 (* ------------------------------------------------------------------------ *)
